@@ -38,8 +38,15 @@ def sentences():
     return st.builds(shape, ent, st.sampled_from([" ", " ", "　", " "]), st.sampled_from([0, 0, 0, 1, 2, 3, 4, 5]))
 
 
+def long_texts():
+    # UTF-8 lengths around the HMAC-SHA512 block size (128 bytes: longer keys are hashed first) and well beyond it
+    ascii_ = st.sampled_from([63, 64, 65, 127, 128, 129, 130, 255, 256, 257, 1000]).flatmap(
+        lambda n: st.text(alphabet="abcdefghijklmnopqrstuvwxyz ", min_size=n, max_size=n))
+    return st.one_of(ascii_, S.unicode_text(200))
+
+
 def texts():
-    return st.one_of(S.unicode_text(), S.unicode_text(40), sentences(), st.just(""))
+    return st.one_of(S.unicode_text(), S.unicode_text(40), sentences(), st.just(""), long_texts())
 
 
 def master_matches(sig, what, node, ref, testnet):
